@@ -136,8 +136,12 @@ func c15(w *core.World, r *core.Report) {
 		r.OK("redisElection/other-writer", token.NoPos, "")
 	}
 
-	r.Rule("R15.5", "renewal wiring: any renewal error closes the syncer with a non-nil error; step-down stops the syncer before resigning", 3)
+	r.Rule("R15.5", "renewal wiring: any renewal error (through the retry wrapper, which returns the last failure) closes the syncer with a non-nil error; step-down stops the syncer before resigning", 4)
 	ruleRenewWiring(w, r)
+	ruleRetryHelper(w, r, "pkg/util.Retry") // the renewal's failure reaches the ticker only if the retry wrapper returns it
+
+	r.Rule("R15.7", "one lease per shard: the election key derives from the shard master's address and nothing instance-specific", 1)
+	ruleElectionKey(w, r)
 
 	r.Rule("R15.6", "configuration: renew interval <= lease timeout / 3 after the last write of either field", 2)
 	ruleLeaseConfig(w, r)
@@ -505,4 +509,80 @@ func ruleLeaseConfig(w *core.World, r *core.Report) {
 		}
 	}
 	r.Check(leaseFloor > 0 && renewFloor > 0 && renewFloor*3 <= leaseFloor, "ClusterConfig.fix/floors", f.Pos(), "lower bounds must satisfy renew floor * 3 <= lease floor (lease=%d renew=%d ns)", leaseFloor, renewFloor)
+}
+
+// ---------------------------------------------------------------- R15.7 one lease per shard
+
+// ruleElectionKey: instances exclude each other only if they campaign on the
+// same key. For one source shard the key must be a function of what all
+// instances agree on (namespace prefix, group name, the shard's master
+// address) and of nothing instance-specific (the node this instance happens
+// to read from, its own listen address).
+func ruleElectionKey(w *core.World, r *core.Report) {
+	f := fn(w, r, "(*cmd.SyncerCmd).runCluster")
+	if f == nil {
+		return
+	}
+	n := 0
+	for _, g := range core.DeepFuncs(f) {
+		for _, s := range core.Sites(g, false) {
+			if s.Method != "NewElection" && !strings.HasSuffix(s.Name, ".NewElection") {
+				continue
+			}
+			n++
+			a := s.Args()
+			if len(a) < 2 {
+				r.Undecided("runCluster/election-key", s.Pos(), "unexpected NewElection signature")
+				continue
+			}
+			key := a[1]
+			fromMaster, instanceSpecific := false, ""
+			roots := []ssa.Value{key}
+			if c, ok := core.Unwrap(key).(*ssa.Call); ok && core.ResolveCall(c).Name == "fmt.Sprintf" && len(c.Call.Args) == 2 {
+				if el, ok := core.VariadicElems(c.Call.Args[1]); ok {
+					roots = el
+				}
+			}
+			for _, root := range roots {
+				core.Walk(root, func(x ssa.Value) bool {
+					if nm, base := loadedFieldName(x); nm == "Address" && base != nil {
+						if bn, _ := loadedFieldName(base); bn == "Master" {
+							fromMaster = true
+						}
+					}
+					if c, ok := x.(*ssa.Call); ok {
+						cn := core.ResolveCall(c).Name
+						if strings.HasSuffix(cn, "RedisConfig).Address") || strings.HasSuffix(cn, ".Address") && !strings.Contains(cn, "Sprintf") {
+							instanceSpecific = cn
+						}
+					}
+					if nm, _ := loadedFieldName(x); nm == "ListenPeer" || nm == "Listen" {
+						instanceSpecific = "server listen address"
+					}
+					return true
+				})
+			}
+			r.Check(fromMaster && instanceSpecific == "", "runCluster/election-key", s.Pos(), "the lease key of a shard must be built from the shard master's address (found: %v) and from nothing that differs between instances (found: %q): two instances reading different nodes of one shard would otherwise hold two leases", fromMaster, instanceSpecific)
+		}
+	}
+	if n == 0 {
+		r.Fail("runCluster/election-key", f.Pos(), "no election is created for a shard")
+	}
+}
+
+// loadedFieldName: for a load of X.f (or a Field of a struct value) returns f and X's address/value.
+func loadedFieldName(v ssa.Value) (string, ssa.Value) {
+	switch x := v.(type) {
+	case *ssa.Field:
+		return core.FieldName(x), x.X
+	case *ssa.FieldAddr:
+		return core.FieldName(x), x.X
+	case *ssa.UnOp:
+		if x.Op == token.MUL {
+			if fa, ok := x.X.(*ssa.FieldAddr); ok {
+				return core.FieldName(fa), fa.X
+			}
+		}
+	}
+	return "", nil
 }
